@@ -497,9 +497,47 @@ def p_acceptor(g):
                 a = acceptor(c)
 
 
+def p_move_connected(g):
+    """an OUTGOING connected socket owns the entry of its local endpoint: moving it (idle, from
+    `top` between two runs) must transfer that entry, and closing / destroying / re-opening the
+    new owner must release it (a bystander can bind the endpoint right away); while the new
+    owner lives the endpoint stays taken"""
+    rng = g.rng; P = g.P; cfg = g.cfg; c = "top"
+    srv = rng.choice(cfg.nodes)
+    v4s = cfg.v4(srv[0])
+    if not v4s: return
+    sip = v4s[0]
+    clis = [nd for nd in cfg.nodes if cfg.v4(nd[0]) and nd[0] != srv[0]] or [nd for nd in cfg.nodes if cfg.v4(nd[0])]
+    cli = rng.choice(clis); cip = cfg.v4(cli[0])[0]
+    port = g.ports(); lport = g.ports()
+    a = g.opened(c, "a", srv, "v4"); g.bind(c, a, sip, port); P.do(c, "%s.listen" % a)
+    peer = g.obj(c, "s", srv); hA = P.h(); P.do(c, "%s.accept %s h%d" % (a, peer, hA))
+    s = g.obj(c, "s", cli); hC = P.h()
+    explicit = rng.random() < 0.6
+    if explicit:
+        P.do(c, "%s.open v4" % s); g.bind(c, s, cip, lport)
+    else:
+        g.eph += 1
+    P.do(c, "%s.connect %s h%d" % (s, ep(sip, port), hC))
+    P.do("h%d" % hC, "%s.local" % s)
+    P.do(c, "run")
+    # the connection is established and idle: move the connector
+    n = P.sock(); P.do(c, "%s.move %s" % (s, n)); P.do(c, "%s.local" % n); P.do(c, "%s.local" % s)
+    if explicit:
+        # the endpoint is still taken by the move target
+        o = g.opened(c, "s", cli, "v4"); g.bind(c, o, cip, lport); P.do(c, "%s.close" % o)
+    P.do(c, "%s.%s" % (n, rng.choice(["close", "destroy", "open v4"])))
+    if explicit:
+        # released: a bystander gets it
+        o2 = g.opened(c, rng.choice("sa"), cli, "v4"); g.bind(c, o2, cip, lport)
+        P.do(c, "%s.%s" % (o2, rng.choice(["close", "destroy", "local"])))
+    if rng.random() < 0.5:
+        # the moved-from object can be used again
+        P.do(c, "%s.open v4" % s); g.bind(c, s, cip, rng.choice([0, lport]))
+
 PIECES = [p_boundary_ports, p_ephemeral, p_same_ep, p_multihome, p_family, p_double_bind,
           p_release_rebind, p_release_rebind, p_moved_from, p_udp_implicit, p_connect_implicit,
-          p_acceptor, p_acceptor, p_acceptor]
+          p_acceptor, p_acceptor, p_acceptor, p_move_connected, p_move_connected]
 
 
 def directed(rng, sid):
